@@ -14,6 +14,7 @@ import Nsq.Model.ViewOrder
   gate k=v …                  → C17: status, upstream requests, notifications, config write
   view …                      → C18: see `Nsq.Model.AggregateWire`
   fan kind=k topic=h channel=h node=sym lk=… na=… nd=…  → C17: `AdminProg.runAction`: result, number of errors in the ErrList, requests phase by phase
+  strfn canon|esc <hex>       → C17: `AdminGate.canon` (CanonicalMIMEHeaderKey) / `AdminFanout.esc` (url.QueryEscape), hex
   getv1 https=b mode=n        → C18: `Fetch.getV1` against a stub behaviour: outcome, requests seen on the plain / TLS port
 -/
 open Nsq Nsq.Line Nsq.Model.AdminGate
@@ -70,6 +71,7 @@ def parseWorld (toks : List String) : World :=
     match t.split (· == ':') |>.toList |>.map (·.toString) with
     | [a, up, ht] => some { addr := a, up := up == "1", hasTopic := ht == "1" : Nsqd }
     | [a, up, ht, pu] => some { addr := a, up := up == "1", hasTopic := ht == "1", postUp := pu == "1" : Nsqd }
+    | [a, up, ht, pu, rep] => some { addr := a, up := up == "1", hasTopic := ht == "1", postUp := pu == "1", reports := rep : Nsqd }
     | _ => none)
   { lookupds := lks, nsqdAddrs := splitList (field toks "na") ',', nsqds := nds }
 
@@ -172,6 +174,24 @@ def fan (toks : List String) : String :=
     let rs := match res.1 with | .none => "none" | .partialErr => "partial" | .full => "full"
     s!"{rs} errs={res.2} {joinOr phases ";"}"
 
+/-- `strfn canon <hex>` | `strfn esc <hex>`: the two string functions of the standard library the C17 model
+contains (`textproto.CanonicalMIMEHeaderKey`, `url.QueryEscape`); answer in hex. -/
+def hexOfString (s : String) : String :=
+  if s == "" then "-" else
+  String.join (s.toUTF8.toList.map (fun b =>
+    String.ofList [Nsq.Model.AdminFanout.hexDigit (b.toNat / 16), Nsq.Model.AdminFanout.hexDigit (b.toNat % 16)])) |>.toLower
+
+def strfn (toks : List String) : String :=
+  match toks with
+  | [f, h] =>
+    match unhexStr (if h == "-" then "" else h) with
+    | none => "bad-op"
+    | some s =>
+      if f == "canon" then hexOfString (Nsq.Model.AdminGate.canon s)
+      else if f == "esc" then hexOfString (Nsq.Model.AdminFanout.esc s)
+      else "bad-op"
+  | _ => "bad-op"
+
 def getv1 (toks : List String) : String :=
   match (field toks "mode").toNat? with
   | none => "bad-op"
@@ -223,6 +243,7 @@ def stepLine (line : String) : String :=
   | "view" :: toks => Nsq.Model.AggregateWire.viewLine toks
   | "fan" :: toks => E7.fan toks
   | "getv1" :: toks => E7.getv1 toks
+  | "strfn" :: toks => E7.strfn toks
   | "lat" :: toks => E7.lat toks
   | "less" :: toks => E7.less toks
   | "latval" :: _ => "marshal-ok"   -- no model of the float values: the line states what the property demands
